@@ -115,6 +115,15 @@ func metricsOnly(m ...any) bool          { return true }
 
 // hasKey(m, k): map m has an entry for k. cur(x): the current value of a reassigned parameter / local.
 func hasKey[K comparable, V any](m map[K]V, k K) bool { _, ok := m[k]; return ok }
+
+// mapLenSum(m): sum of the lengths of the slices stored in m.
+func mapLenSum[K comparable, V any](m map[K][]V) int {
+	n := 0
+	for _, v := range m {
+		n += len(v)
+	}
+	return n
+}
 func cur[T any](x T) T                                 { return x }
 
 // atentry(x), in a loop invariant: the value of x when the loop was entered.
